@@ -78,3 +78,23 @@ Example C08_nonvacuous :
     (life_model (true, [LOpen HSilent; LOpen HOk; LChannel; LConfirm 0; LDeliver 0; LReturn 0; LChClose 0;
                         LChOpen 0; LDeclare 0; LBClose; LClose CDrop; LOpen HOk; LChannel; LClose CSilent])) = true.
 Proof. vm_compute. reflexivity. Qed.
+
+(* ---------- close() at the instant a heartbeat timer fires ---------- *)
+From AV Require Import Model.HbSem Proofs.HbSemP Model.Src Gen.GenSrc Model.SrcShape.
+(* stop() against the fired timer's thread re-arming, statement by statement, EVERY schedule:
+   once stop() has returned there is no armed timer *)
+Theorem C08_no_timer_after_stop : forall sched,
+  let s := hb_run true sched in h_s s = SDone -> h_armed s = false.
+Proof. exact no_timer_after_stop. Qed.
+Print Assumptions C08_no_timer_after_stop.
+
+(* the code before the fix (test and creation outside the lock) leaves one behind *)
+Theorem C08_unlocked_rearm_refuted :
+  exists sched, h_s (hb_run false sched) = SDone /\ h_armed (hb_run false sched) = true.
+Proof. exact unlocked_rearm_refuted. Qed.
+Print Assumptions C08_unlocked_rearm_refuted.
+
+(* the lock discipline the theorem assumes, read off the source on every run *)
+Theorem C08_source_heartbeat_discipline : heartbeat_shape_ok = true.
+Proof. vm_compute. reflexivity. Qed.
+Print Assumptions C08_source_heartbeat_discipline.
